@@ -1,13 +1,13 @@
 CONSTANTS
   Comp = {"a", "b"}
   MaxDepth = 2
-  OpenFlags = {26, 42}
-  BatchMembers <- MCBatch
+  OpenFlags = {}
+  BatchMembers <- MCBatch0
   MaxTape = 5
-  Chunks = {"c1", "c2"}
+  Chunks = {"c1"}
   AttrVals = {1}
-  Handles = {}
-  HandleFlags = {}
+  Handles = {"h1"}
+  HandleFlags = {6, 10, 18}
   MaxContent = 2
   RS = 4
   Shape <- MCShape
